@@ -1168,6 +1168,7 @@ fn gen_file(rng: &mut Rng, case: &mut Case, peers: u64, wf: bool, ties: bool) ->
             let mut tries = 0;
             loop {
                 t = match rng.below(8) {
+                    0 if rng.chance(1, 4) => (i64::MAX as u64 - BASE as u64) - rng.below(2 * case.expiry + 2), // near the end of time
                     0 => case.now + 1 + 2 * rng.below(5),                          // in the future
                     1 => case.now.saturating_sub(case.expiry + 1 - (case.expiry % 2)), // just expired (odd offset)
                     _ => case.now.saturating_sub(1 + 2 * rng.below(case.expiry.min(40) / 2 + 2)),
@@ -1384,6 +1385,13 @@ fn main() {
             "cfg 3 3 100 1", "tick 2", "add 0 i4:1,u:1,q,p:1", "flush 0 1", "start - - i4:1,u:1,q,p:7 -", "start d 1 - -",
             "corrupt 0", "start - - i4:1,u:1,q,p:7 -", "start d - i4:1,u:1,q,p:7 -", "corrupt 3", "start - 5 i4:1,u:1,q,p:7 -", "start - - - -",
             "start i - - -", "start - - - i4:1,u:1,q,p:8", "start f - - -", "start l - i4:1,u:1,q,p:7 -", "corrupt 5", "start - - i4:1,u:1,q,p:7 -",
+            // a foreign file of valid structure with hostile values: last_seen at / near the largest second count serde
+            // accepts (i64::MAX), i.e. within one expiry period of the end of time (seeded change r5m1 added the expiry
+            // period to last_seen unchecked): such an address is simply in the future, hence dropped as expired
+            "cfg 3 2 86400 1", "tick 2",
+            "file 1=i4:1,u:1,q,p:1;1;0;9223372035155775807+i4:1,u:2,q,p:1;1;0;999999|2=i4:1,u:1,q,p:2;1;0;9223372035155689408", "load",
+            "add 0 i4:1,u:1,q,p:3", "flush 0 1", "load", "start - - - -",
+            "file 1=i4:1,u:1,q,p:1;4294967295;4294967295;9223372035155775806", "load", "flush 0 0", "load",
             "cfg 50 6 86400 3", "race 1 3 40",
         ];
         let mut budget = args.n as i64;
